@@ -175,6 +175,11 @@ func Explore(sh *Shared, ec ExploreConfig) (*Report, error) {
 			}
 		}
 		m := NewMachine(sh, ec.Cfg, solver)
+		defer func() {
+			for b := range m.blocks {
+				sh.Blocks.LoadOrStore(b, struct{}{})
+			}
+		}()
 		for {
 			mu.Lock()
 			for len(stack) == 0 && active > 0 && !stop {
